@@ -34,7 +34,7 @@ def run_solver(name, cmd, path, timeout):
     argv = [a.format(t=int(timeout), tms=int(timeout * 1000)) for a in cmd] + [path]
     t0 = time.time()
     try:
-        p = subprocess.run(argv, capture_output=True, text=True, timeout=timeout + 5)
+        p = subprocess.run(argv, capture_output=True, text=True, errors='replace', timeout=timeout + 5)
         out = p.stdout.strip()
     except subprocess.TimeoutExpired:
         return 'timeout', '', time.time() - t0
@@ -247,14 +247,19 @@ def discharge(obligations, axioms, timeout=10, jobs=None, second_opinion=False, 
     hard = [i for i in todo if results[i].verdict == 'unknown']
     budget = timeout if len(hard) <= 24 else max(10, timeout // 4)
 
+    # all z3-API work (not thread-safe) happens here in the main thread
+    slice_texts = {}
+    for i in hard:
+        ob = obligations[i]
+        if use_slices and len(ob.pc) > 40:
+            slice_texts[i] = [to_smt2(list(axioms) + hyps + [z3.Not(ob.goal)])
+                              for hyps in slices(ob) if len(hyps) < len(ob.pc)]
+
     def second(i):
         ob = obligations[i]
         spent = results[i].seconds
-        if results[i].verdict == 'unknown' and use_slices and len(ob.pc) > 40:
-            for k, hyps in enumerate(slices(ob)):
-                if len(hyps) >= len(ob.pc):
-                    continue
-                stext = to_smt2(list(axioms) + hyps + [z3.Not(ob.goal)])
+        if results[i].verdict == 'unknown':
+            for k, stext in enumerate(slice_texts.get(i, [])):
                 rs = _discharge_text(ob, stext, workdir, max(5, budget // 3), False, only_first=True)
                 spent += rs.seconds
                 if rs.verdict == 'discharged':
